@@ -82,3 +82,188 @@ inline_ok(
     SERVICE + ".request_type",
     SERVICE + ".response_type",
 )
+
+
+# ------------------------------------------------------------------------------------------------ primitive types
+PRIMITIVE = "pydsdl._serializable._primitive.PrimitiveType"
+BOOLEAN_T = "pydsdl._serializable._primitive.BooleanType"
+ARITHMETIC_T = "pydsdl._serializable._primitive.ArithmeticType"
+INTEGER_T = "pydsdl._serializable._primitive.IntegerType"
+SIGNED_T = "pydsdl._serializable._primitive.SignedIntegerType"
+UNSIGNED_T = "pydsdl._serializable._primitive.UnsignedIntegerType"
+BYTE_T = "pydsdl._serializable._primitive.ByteType"
+UTF8_T = "pydsdl._serializable._primitive.UTF8Type"
+FLOAT_T = "pydsdl._serializable._primitive.FloatType"
+VOID_T = "pydsdl._serializable._void.VoidType"
+CASTMODE = "pydsdl._serializable._primitive.PrimitiveType.CastMode"
+
+SATURATED, TRUNCATED = 0, 1  # ordinals of PrimitiveType.CastMode members (declaration order)
+
+
+def cast_mode_ord(t):
+    """Ordinal of the cast mode (0 saturated, 1 truncated)."""
+    cm = t._cast_mode
+    if smt():
+        return cm.term
+    return cm.value
+
+
+import fractions as _fr
+
+MAG16 = _fr.Fraction(2 ** 15) * (2 - _fr.Fraction(1, 2 ** 10))
+MAG32 = _fr.Fraction(2 ** 127) * (2 - _fr.Fraction(1, 2 ** 23))
+MAG64 = _fr.Fraction(2 ** 1023) * (2 - _fr.Fraction(1, 2 ** 52))
+
+
+def _rv(fr):
+    import z3
+
+    return z3.RealVal(str(fr.numerator)) / z3.RealVal(str(fr.denominator))
+
+
+def MAG(n):
+    """Largest finite value of IEEE 754 binary16/32/64: (2 - 2**-p) * 2**emax (closed terms, exact)."""
+    if smt():
+        import z3
+        from pyvc.values import Int as _I
+
+        nt = _I.unwrap(n)
+        return z3.If(nt == 16, _rv(MAG16), z3.If(nt == 32, _rv(MAG32), _rv(MAG64)))
+    return {16: MAG16, 32: MAG32, 64: MAG64}[n]
+
+
+def FRAC(x):
+    """Numeric value of a Fraction-valued field / expression as a spec number."""
+    if smt():
+        from pyvc.values import FractionV, Real as _R
+
+        return x.term if isinstance(x, FractionV) else _R.unwrap(x)
+    return x
+
+
+def POW2(n):
+    if smt():
+        import z3
+        from pyvc import speclib as _sl
+        from pyvc.values import Int as _I
+
+        if isinstance(n, int):
+            return z3.IntVal(2 ** n)
+        return _sl.CTX.engine.lib.pow2(_I.unwrap(n))
+    return 2 ** n
+
+
+@class_spec(PRIMITIVE)
+class _PrimitiveSpec:
+    fields = dict(_bit_length=Int, _cast_mode=EnumOf(CASTMODE), _standard_bit_length=Bool)
+
+    def invariant(self):
+        return {"bit-length-range": AND(1 <= self._bit_length, self._bit_length <= 64)}
+
+
+@class_spec(BOOLEAN_T)
+class _BooleanTSpec:
+    def invariant(self):
+        return {"bool-is-one-bit": AND(self._bit_length == 1, cast_mode_ord(self) == SATURATED)}
+
+
+@class_spec(SIGNED_T)
+class _SignedSpec:
+    def invariant(self):
+        return {"signed": AND(self._bit_length >= 2, cast_mode_ord(self) == SATURATED)}
+
+
+@class_spec(BYTE_T)
+class _ByteSpec:
+    def invariant(self):
+        return {"byte": AND(self._bit_length == 8, cast_mode_ord(self) == TRUNCATED)}
+
+
+@class_spec(UTF8_T)
+class _Utf8Spec:
+    def invariant(self):
+        return {"utf8": AND(self._bit_length == 8, cast_mode_ord(self) == TRUNCATED)}
+
+
+@class_spec(FLOAT_T)
+class _FloatSpec:
+    fields = dict(_magnitude=Frac)
+
+    def invariant(self):
+        return {"float-width": OR(self._bit_length == 16, self._bit_length == 32, self._bit_length == 64),
+                "magnitude": FRAC(self._magnitude) == MAG(self._bit_length)}
+
+
+@class_spec(VOID_T)
+class _VoidSpec:
+    fields = dict(_bit_length=Int)
+
+    def invariant(self):
+        return {"bit-length-range": AND(1 <= self._bit_length, self._bit_length <= 64)}
+
+
+inline_ok(
+    PRIMITIVE + ".bit_length", PRIMITIVE + ".cast_mode", PRIMITIVE + ".standard_bit_length",
+    PRIMITIVE + ".alignment_requirement", PRIMITIVE + ".deprecated",
+    VOID_T + ".bit_length", VOID_T + ".alignment_requirement", VOID_T + ".deprecated",
+)
+
+# ------------------------------------------------------------------------------------------------ expression values
+ANY = "pydsdl._expression._any.Any"
+PRIMITIVE_X = "pydsdl._expression._primitive.Primitive"
+BOOLEAN_X = "pydsdl._expression._primitive.Boolean"
+RATIONAL_X = "pydsdl._expression._primitive.Rational"
+STRING_X = "pydsdl._expression._primitive.String"
+SET_X = "pydsdl._expression._container.Set"
+
+
+@class_spec(BOOLEAN_X)
+class _BooleanXSpec:
+    fields = dict(_value=Bool)
+
+
+@class_spec(RATIONAL_X)
+class _RationalXSpec:
+    fields = dict(_value=Frac)
+
+
+@class_spec(STRING_X)
+class _StringXSpec:
+    fields = dict(_value=Str)
+
+
+inline_ok(
+    BOOLEAN_X + ".native_value", RATIONAL_X + ".native_value", STRING_X + ".native_value",
+    RATIONAL_X + ".is_integer", BOOLEAN_X + ".__init__", RATIONAL_X + ".__init__", STRING_X + ".__init__",
+    why="trivial accessor / constructor of an expression value: inlined (its body is its own strongest contract)",
+)
+
+# ------------------------------------------------------------------------------------------------ attributes
+ATTRIBUTE = "pydsdl._serializable._attribute.Attribute"
+FIELD = "pydsdl._serializable._attribute.Field"
+PADDING = "pydsdl._serializable._attribute.PaddingField"
+CONSTANT = "pydsdl._serializable._attribute.Constant"
+
+
+@class_spec(ATTRIBUTE)
+class _AttributeSpec:
+    fields = dict(_data_type=ObjOf(SERIALIZABLE), _name=Str, _doc=Str)
+
+
+@class_spec(CONSTANT)
+class _ConstantSpec:
+    fields = dict(_value=ObjOf(ANY))
+
+
+inline_ok(ATTRIBUTE + ".data_type", ATTRIBUTE + ".name", ATTRIBUTE + ".doc", CONSTANT + ".value",
+          SERIALIZABLE + ".__init__")
+
+
+@contract("pydsdl._serializable._name.check_name", props=["C05"])
+class _CheckNameAssumed:
+    """Placeholder until C05 states the full contract: the name check may reject."""
+    params = dict(name=Str)
+    raises = {"InvalidNameError": None}
+    verify = False
+    assumed = "contract of check_name is the subject of C05"
+
